@@ -6,7 +6,8 @@ d = "/verif/seeded/" + sid
 a = json.load(open(d + "/meta.agent.json")) if os.path.exists(d + "/meta.agent.json") else {}
 conf = open(d + "/confirm.log").read() if os.path.exists(d + "/confirm.log") else ""
 m = {"id": sid, "breaks_property": prop,
-     "summary": a.get("summary"), "needs_to_manifest": a.get("needs_to_manifest"),
+     "summary": a.get("summary") or a.get("what") or a.get("title"),
+     "needs_to_manifest": a.get("needs_to_manifest") or a.get("manifests_when"),
      "origin": "written by a fresh sub-agent that saw only the property text and a scratch worktree",
      "confirmed_by_me": {"what_i_ran": ["cargo test -p ark-poly-commit --offline --lib (with change)",
                                         "cargo test -p ark-poly-commit --offline --test seed_demo (with change: must fail)",
